@@ -12,7 +12,7 @@ N = ad.N_DEFAULT
 
 
 def mc_cfg(T, S):
-    return '\n'.join(['SPECIFICATION Spec', f'CONSTANTS T = {T}', f' S = {S}', ' NAt = 1', ' MaxRes = 0', ' DoExport = FALSE',
+    return '\n'.join(['SPECIFICATION Spec', f'CONSTANTS T = {T}', f' S = {S}', ' NAt = 1', ' MaxRes = 0', ' DoExport = FALSE', ' Mixed = FALSE',
                       'INVARIANT InvStateClassPartition', 'INVARIANT InvFill', 'CHECK_DEADLOCK FALSE', ''])
 
 
